@@ -137,6 +137,20 @@ def run(ctx):
             if bad: ctx.violate(f"serial item {i} of {case} endpoint_kwargs={ep} seed={cfg.seed}: {bad}", dict(case=case, ep=opts_json(ep), seed=cfg.seed, index=i))
         if k % max(1, n_cfg // (len(par_sizes) * (1 if ctx.quick else 4))) == 0:
             par_jobs.append((cfg, case, ep))
+    # ---- grids beyond 127/128 (narrow integer types): oracle only ---------------------------------------
+    for g, nm in ([(130, 2), (129, 1)] if ctx.quick else [(129, 3), (130, 4), (200, 2), (257, 1)]):
+        case = dict(gen=ctx.rng.choice(["dfs", "dfs_percolation"]), rows=g, cols=g, kwargs={})
+        if case["gen"] == "dfs_percolation": case["kwargs"]["p"] = 0.1
+        cfg = _cfg_of(case, {}, ctx.rng.randint(0, 2**20), nm, f"c03big{g}")
+        try:
+            ds = MazeDataset.generate(cfg, gen_parallel=False)
+        except Exception as e:
+            ctx.violate(f"serial generation on a {g}x{g} grid ({case}) raised {type(e).__name__}: {str(e)[:200]}", dict(case=case, ep={}, seed=cfg.seed)); continue
+        ctx.count(f"big_grid={g}")
+        for i, m in enumerate(ds.mazes):
+            bad = oracle_item(g, m, {})
+            ctx.case([cfg.name, i, len(m.solution)], nontrivial=len(m.solution) >= 2)
+            if bad: ctx.violate(f"serial item {i} of {case} (grid {g}) seed={cfg.seed}: {bad}", dict(case=case, ep={}, seed=cfg.seed, index=i))
     # ---- parallel generation: oracle + certified optimal length ---------------------------------
     certs = []
     for idx, (cfg, case, ep) in enumerate(par_jobs):
